@@ -59,6 +59,12 @@ CHECKS = {
    text="For every array of generated programs (intermediates, fused, each output of multi-output operators, qr) the metadata declared before computing must equal the backing Zarr array's and the result's, and every block a task writes must have exactly the shape of the region it is written into.",
    note="Trusted: TLC; zarr.Array.__setitem__ being the only path by which cubed writes blocks. Structured (field) arrays: block shapes checked, metadata triple not.",
    design_ref="DESIGN.md §5 C12"),
+ "C14": dict(
+   engine="Rechunk",
+   technique="TLA+ module Rechunk.tla defines a valid rechunk plan (stage rules, copy-region alignment with the grid actually written, memory bound, final chunks); TLC judges every plan returned by the real planners and every copy-operation plan of lazily built rechunks over thousands of geometries x budgets; a sub-sample is computed",
+   text="The planner's floating-point search is not transcribed; the spec says what any returned plan must satisfy and TLC evaluates it per case: int = min(read, write), all chunks within budget, last write made of whole target chunks; for cubed's copy operations every copy region starts and ends on a boundary of the (regular or rectilinear) grid read from the really built array, copy chunk within (allowed - reserved) / copies, final chunks exactly as requested. Planner calls run under a timeout (termination) and may only refuse with ValueError / NotImplementedError. 30-600 rechunks are computed: elements preserved, chunks as requested.",
+   note="Trusted: TLC as evaluator. Bounds: 1-3 dims, extents <= 24 (quick) / 120 (thorough). An earlier rule demanding source-aligned reads was a false alarm and was removed (DESIGN.md).",
+   design_ref="DESIGN.md §5 C14, §4.10"),
  "C15": dict(
    engine="Blockwise",
    technique="TLA+ module Blockwise.tla is the reference semantics of index notation and of fusion provenance; TLC evaluates it on thousands of enumerated cases (one implementation test per case) and the real key functions / fused specs must agree on every output block",
